@@ -47,8 +47,9 @@ def data_strategy(draw, max_points=24):
 
 def call_args(tier):
     top = 2 if tier == "quick" else 3
-    return st.fixed_dictionaries({"n": st.integers(0, top), "m": st.integers(0, top), "include_zero": st.booleans(),
-                                  "component_index": st.integers(0, 1)})
+    # None = the library's own default orders (used only on small data sets, see FitHistory.apply: the default grid grows with the data)
+    order = st.one_of(st.integers(0, top), st.integers(0, top), st.integers(0, top), st.none())
+    return st.fixed_dictionaries({"n": order, "m": order, "include_zero": st.booleans(), "component_index": st.integers(0, 1)})
 
 
 def _measurements(points):
@@ -85,6 +86,8 @@ class FitHistory:
             op = self.seen[op["which"] % len(self.seen)]
             name = op["op"]
         fn = fit if name == "fit" else find_best_fit
+        if (op["n"] is None or op["m"] is None) and len(self.points) > 9:
+            op = dict(op, n=1 if op["n"] is None else op["n"], m=0 if op["m"] is None else op["m"])  # defaults only on small sets (cost)
         kw = dict(n=op["n"], m=op["m"], include_zero=op["include_zero"], component_index=op["component_index"])
         sig = (name, op["n"], op["m"], op["include_zero"], op["component_index"])
         out = call(fn, self.data, **kw)
@@ -110,7 +113,7 @@ class FitHistory:
         if sig in self.first:
             require(self.first[sig] == _coeffs(out), "%s(%r) repeated on the same object gives different coefficients", name, kw)
         self.first[sig] = _coeffs(out)
-        if name == "find_best_fit":
+        if name == "find_best_fit" and op["n"] is not None and op["m"] is not None:
             best = _loss(out, self.points)
             for n2 in range(op["n"] + 1):
                 for m2 in range(op["m"] + 1):
